@@ -68,7 +68,7 @@ fn numeric(v: &str) -> Option<i64> {
 pub fn gen_job(r: &mut Rng, w: &World, w3c: bool, n: u64) -> PJob {
     let mut honest = true;
     let mut tags: Vec<&'static str> = vec![];
-    let mine = [0usize, 1, 2, 5, 6];
+    let mine = [0usize, 1, 2, 5, 6, 7];
     let ncred = 1 + r.below(3) as usize;
     let mut chosen: Vec<usize> = vec![];
     for _ in 0..ncred {
@@ -130,7 +130,9 @@ pub fn gen_job(r: &mut Rng, w: &World, w3c: bool, n: u64) -> PJob {
             if r.chance(3, 10) {
                 let want = !r.chance(1, 8);
                 // a value restriction can only be met by a revealed single attribute or group member
-                let attr = if reveal { Some((names[0].as_str(), first.1.as_str())) } else { None };
+                // the W3C form of a credential holds an i32 literal as a number: "007" is 7 there
+                let shown_value = if w3c { first.1.parse::<i32>().map(|x| x.to_string()).unwrap_or(first.1.clone()) } else { first.1.clone() };
+                let attr = if reveal { Some((names[0].as_str(), shown_value.as_str())) } else { None };
                 let q = if !reveal && r.chance(1, 6) {
                     honest = false;
                     tags.push("value-restriction-on-unrevealed");
@@ -409,9 +411,14 @@ pub fn run_job(w: &World, j: &PJob) -> Option<(String, Value)> {
             Ok((p, provs, agg)) => {
                 // a serde hop: what a remote verifier receives
                 let text = serde_json::to_string(&p).unwrap();
-                let p2: anoncreds::data_types::w3c::presentation::W3CPresentation = serde_json::from_str(&text).ok()?;
-                let v = vw::verify_w3c(&p2, &req, &bctx);
-                (format!("(ok {})", vw::w3c_sexp(w, &p2, &provs, &agg)), Some(serde_json::from_str(&text).unwrap()), Some(v))
+                match serde_json::from_str::<anoncreds::data_types::w3c::presentation::W3CPresentation>(&text) {
+                    Ok(p2) => {
+                        let v = vw::verify_w3c(&p2, &req, &bctx);
+                        (format!("(ok {})", vw::w3c_sexp(w, &p2, &provs, &agg)), Some(serde_json::from_str(&text).unwrap()), Some(v))
+                    }
+                    // the library cannot read back what it wrote: the remote verifier has nothing to accept
+                    Err(_) => (format!("(ok {})", vw::w3c_sexp(w, &p, &provs, &agg)), Some(serde_json::from_str(&text).unwrap()), Some("err")),
+                }
             }
             Err(e) => (format!("({})", e), None, None),
         }
